@@ -13,8 +13,9 @@ is at the level of tokens; identifiers, numbers and strings are arbitrary `Strin
 * **Round trip** `compile (print s) = s`: `parse_print_expr_nav`, `parse_print_expr_reach` (and the general
   `parse_print_expr`, `parse_print_expr_any`, `cls_necessary`: the exact class of expressions that come back
   unchanged), `parse_print_exprlist`, `parse_print_ttc`, `parse_print_mult`, `parse_print_step`,
-  `parse_print_asset`, `parse_print_assoc`, `parse_print_decl_*`, `parse_print` (whole file: `parseMal` then the
-  assembly of `visitMal`), `compile_print` (through `compileFile`, given that the text lexes to the printed tokens).
+  `parse_print_asset`, `parse_print_assoc`, `parse_print_decl_*`, `parse_print_consumed` (the printed tokens are
+  consumed completely: the compiler requires `EOF` after the last declaration), `parse_print` (whole file: `parseMal`
+  then the assembly of `visitMal`), `compile_print` (through `compileFile`, given that the text lexes to the printed tokens).
   Fuel: twice the number of tokens (+2) always suffices; `parseMal` supplies `2 * length + 8`.
 * **Precedence / associativity**: `shape_collect_left`, `shape_setops_left`, `dot_binds_tighter`,
   `star_and_type_bind_to_part`, `ttc_left_assoc`, `ttc_precedence`.
@@ -274,8 +275,16 @@ theorem parse_print_decl_associations (as : List CAssoc) (hw : ∀ a ∈ as, WFA
     parseDecl f (.kwAssociations :: .lcurly :: (prAssocs as ++ .rcurly :: rest)) = some (.associations as, rest) :=
   parseDecl_prAssociations as hw f rest hf
 
+/-- the printed specification is consumed completely by `parser.mal()`: its declarations come back and no token is
+left in the stream — so it passes the compiler's `EOF` check (`parseMal`, since e0054c2; `Props/C17.lean`) -/
+theorem parse_print_consumed (s : CSpec) (hw : WFSpec s) : parseMalRest (prSpec s) = some (declsOf s, []) :=
+  parseMalRest_prSpec s hw
+
+theorem parse_print_decls (s : CSpec) (hw : WFSpec s) : parseMal (prSpec s) = some (declsOf s) :=
+  parseMal_prSpec s hw
+
 /-- **compile (print s) = s** at the level of tokens: the printed specification parses (with the fuel `parseMal`
-supplies) to its declarations, and assembling them (`visitMal`: defines, categories, assets, associations,
+supplies; the whole token list, nothing left over) to its declarations, and assembling them (`visitMal`: defines, categories, assets, associations,
 de-duplication) gives the specification.  `WFSpec`: distinct define / meta keys, strings without quotes, the five
 step types, operators and risk flags the compiler can produce, non-empty requires / reaches lists classified as
 the compiler classifies, no duplicate category / asset / association, assets listed category by category. -/
@@ -289,7 +298,8 @@ theorem compile_print (files : String → Option String) (f : Nat) (name src : S
     (hw : WFSpec s) (hfile : files name = some src) (hlex : lex src = some (prSpec s)) :
     compileFile files (f+1) name = some s := compileFile_prSpec files f name src s hw hfile hlex
 
-/-- `compileFile` is: lex and parse (`parseSource`; for a text that lexes: `parseMal` of its tokens), assemble with the included files compiled one level down -/
+/-- `compileFile` is: lex and parse (`parseSource`: the text must lex and `parseMal` must accept the whole token
+list — `parser.mal()` followed by the `EOF` check), assemble with the included files compiled one level down -/
 theorem compileFile_unfold (files : String → Option String) (f : Nat) (name : String) :
     compileFile files (f+1) name =
       (files name).bind fun src => (parseSource src).bind (assemble (compileFile files f)) :=
